@@ -116,7 +116,7 @@ impl Sweep {
             name: "G1/numbers-and-currency".into(),
             fes: fe_idx(&fes, name_is("plain")),
             generator: Gen::Strings {
-                atoms: strs(&["1", "0", ".", ",", "$", "€", "e", "-", "x", "st", "th", "%", " ", "F", "£", "s"]),
+                atoms: strs(&["1", "0", ".", ",", "$", "€", "e", "-", "x", "st", "th", "%", " ", "F", "£", "s", "TH", "Nd"]),
                 max_len: t.pick(4, 5),
             },
             embed: false,
@@ -144,6 +144,9 @@ impl Sweep {
                 v.push(format!("{}st", "1".repeat(k)));
                 v.push(format!("1e{}", "9".repeat(k.min(5))));
                 v.push(format!("{}.5", "7".repeat(k)));
+                v.push(format!("1e{}TH", k));
+                v.push(format!("1.5e{}ST", k));
+                v.push(format!("{}RD", "2".repeat(k)));
             }
             let mut list: Vec<String> = vec![];
             for x in v {
